@@ -117,6 +117,8 @@ LongInt LocHandleCnt; /* mom. verwendeter lokaler Handle            */
 typedef struct sSymbolEntry {
     TTree      Tree;
     Boolean    Defined, Used, Changeable;
+    Boolean    WasPadded;   /* label moved by automatic padding in the pass that set it... */
+    LargeInt   PrePadValue; /* ...and the value it had before that */
     TempResult SymWert;
     PCrossRef  RefList;
     Byte       FileNum;
@@ -2174,12 +2176,13 @@ static Boolean SymbolAdder(PTree* PDest, PTree Neu, void* pData) {
                 || ((NewEntry->SymWert.Typ == TempInt)
                     && (NewEntry->SymWert.Contents.Int
                         != (*Node)->SymWert.Contents.Int))) {
-                /* a label's value may still be corrected by automatic padding
-                   in the same or one of the next lines: defer the decision */
+                /* a label that was moved by automatic padding in the previous pass
+                   and again starts with the same unpadded value will most likely
+                   be moved the same way again: defer the decision until then */
 
                 if ((NewEntry->SymWert.Typ == TempInt)
-                    && (NewEntry->SymWert.Flags & eSymbolFlag_Label) && DoPadding
-                    && (NewEntry->SymWert.Contents.Int & 1)) {
+                    && (NewEntry->SymWert.Flags & eSymbolFlag_Label) && (*Node)->WasPadded
+                    && (NewEntry->SymWert.Contents.Int == (*Node)->PrePadValue)) {
                     FlushPendingPhaseError();
                     pPendingPhaseEntry = NewEntry;
                     PendingPhaseOldValue = (*Node)->SymWert.Contents.Int;
@@ -2319,6 +2322,10 @@ void PrintSymTree(char* Name) {
  * ------------------------------------------------------------------------ */
 
 void ChangeSymbol(PSymbolEntry pEntry, LargeInt Value) {
+    if (!pEntry->WasPadded && (pEntry->SymWert.Typ == TempInt)) {
+        pEntry->WasPadded   = True;
+        pEntry->PrePadValue = pEntry->SymWert.Contents.Int;
+    }
     as_tempres_set_int(&pEntry->SymWert, Value);
 }
 
